@@ -2,7 +2,7 @@
    argument tokens in, an outcome and result tokens out.  All calls into the
    models are made here, in Gallina; the hand-written OCaml only tokenises. *)
 From Coq Require Import String Ascii.
-From Dryoc Require Import Lib.Outcome Impl.Blake2b Impl.Kdf Impl.Poly1305 Impl.Hashes Impl.SecretBox Impl.SecretStream.
+From Dryoc Require Import Lib.Outcome Impl.Blake2b Impl.Kdf Impl.Poly1305 Impl.Hashes Impl.SecretBox Impl.SecretStream Impl.Scalarmult.
 Open Scope Z_scope.
 
 Inductive tok :=
@@ -125,6 +125,20 @@ Definition run (op : string) (args : list tok) : option (outcome (list tok)) :=
     match args with
     | [TB kp; TB np; TB kl; TB nl; TL steps] =>
         Some (Ok (stream_steps steps (mk_state kp np) (mk_state kl nl)))
+    | _ => None end
+  else if String.eqb op "scalarmult.mult" then
+    match args with [TB n; TB p] => Some (Ok [TB (ScalarmultImpl.scalarmult n p)]) | _ => None end
+  else if String.eqb op "scalarmult.base" then
+    match args with [TB n] => Some (Ok [TB (ScalarmultImpl.scalarmult_base n)]) | _ => None end
+  else if String.eqb op "box.beforenm" then
+    match args with [TB pk; TB sk] => Some (Ok [TB (ScalarmultImpl.beforenm pk sk)]) | _ => None end
+  else if String.eqb op "kx.client" then
+    match args with
+    | [TB cpk; TB csk; TB spk] => Some (omap (fun p => [TB (fst p); TB (snd p)]) (ScalarmultImpl.client_session_keys cpk csk spk))
+    | _ => None end
+  else if String.eqb op "kx.server" then
+    match args with
+    | [TB spk; TB ssk; TB cpk] => Some (omap (fun p => [TB (fst p); TB (snd p)]) (ScalarmultImpl.server_session_keys spk ssk cpk))
     | _ => None end
   else if String.eqb op "stream.init" then
     match args with
